@@ -48,6 +48,10 @@ def sh(cmd, cwd=None, env=None, timeout=None, check=True, capture=True):
     return p
 
 
+# zones whose clocks jump at local midnight (Havana, Santiago, Sao_Paulo), at 02:00 (New_York, London), by half an hour
+# (Lord_Howe), that skipped a whole day (Apia, 2011-12-30), plus UTC and Beijing
+DRIVER_ZONES = ["UTC", "America/Havana", "America/New_York", "Pacific/Apia", "America/Santiago", "Asia/Shanghai", "America/Sao_Paulo",
+                "Europe/London", "Australia/Lord_Howe"]
 DOMAIN_ERR_RE = re.compile(r"Attempted to (access index|apply function|select field|access field|apply tuple)|is not in the domain|which is out of bounds|"
                            r"Attempted to compute the value of an expression of form CHOOSE")
 HARD_ERR_RE = re.compile(r"OutOfMemoryError|StackOverflowError|java\.io\.|Cannot find source file|Parsing or semantic analysis failed")
@@ -204,8 +208,12 @@ class Run:
             base = os.path.join(self.dir, "%s.s%02d" % (label, i))
             c = [exe, cmd, "-tier", self.tier, "-seed", str(self.seed), "-shard", "%d/%d" % (i, shards),
                  "-out", base, "-maxlines", str(maxlines), "-a", a]
+            # no result of the library may depend on the zone the process runs in: the shards of one driver run
+            # under different TZ values (zones with daylight-saving gaps, a zone that skipped a day, UTC, Beijing)
+            penv = dict(os.environ, TZ=DRIVER_ZONES[i % len(DRIVER_ZONES)])
+            penv.update(env or {})
             procs.append((i, base, c, subprocess.Popen(c, stdout=subprocess.PIPE, stderr=subprocess.PIPE, text=True,
-                                                       errors="replace", env=dict(os.environ, **(env or {})))))
+                                                       errors="replace", env=penv)))
         chunks = []
         lines = 0
         stderr_all = []
